@@ -2,6 +2,7 @@ package main
 
 import (
 	"fmt"
+	"strings"
 	"sync/atomic"
 
 	"verif/common"
@@ -21,15 +22,17 @@ const c04Tuples = 5 * 4 * 4 * 4 // ifGenerationMatch {unset,=cur,!=cur,0,junk} x
 // C04: preconditions gate mutations exactly. Complete enumeration of the condition-tuple space in both tiers, random
 // histories on top; oracle = truth table of the statement + "a failed request changed nothing" whole-bucket diff.
 func runC04(run *common.Run) {
-	run.Rule = fmt.Sprintf("sub-space 'enum' (enumerated COMPLETELY in both tiers, exhaustive=true refers to it): %d condition tuples (ifGenerationMatch in {unset,=cur,!=cur,0,junk} x ifGenerationNotMatch, ifMetagenerationMatch, ifMetagenerationNotMatch in {unset,=cur,!=cur,junk}) x object state {absent, fresh (metageneration 1), patched (metageneration 3), deleted-and-recreated (!=cur = the deleted generation)} x operation {media, multipart, resumable (conditions at initiation), patch, delete, compose destination, patch whose body is a full object resource as an EARLIER metadata GET returned it (stale generation / metageneration / md5Hash / size for the patched and recreated states) with one user field changed - for a quarter of the tuples the resource of the neighbour object nb1, for another quarter renamed to an object that does not exist, so that name / id / links in the body differ from the URL -, patch whose body has valid members (user metadata, acl / owner / retention / customerEncryption) followed by a member of the wrong JSON type} x store {mem,file} = %d cases; sub-space 'src' (complete): compose with 1-3 sources, per-source ifGenerationMatch in {unset,=cur,!=cur} at every position x destination {absent,fresh} x store. The target is uploaded with acl entries, owner, retention and customerEncryption in its metadata and every plain PATCH of the grid that must fail also names those nested fields with other values. Each case = fresh bucket with two neighbour objects, set-up of the target state, baseline dump, the one request, dump; expected status from the truth table, after any non-2xx the dump must equal the baseline. 'folder' (complete): the same %d tuples x {delete, patch} x addressed name {'t', 't/'} x store in a bucket that holds 't/x' and 't/y/z' but never held an object 't' or 't/': the addressed object is absent, so only {} and {ifGenerationMatch=0} pass the conditions and then there is nothing to delete / patch (never a 2xx), an unparsable value is 400, and the dump afterwards - the objects below the prefix in particular - must equal the baseline. 'late' (complete): resumable sessions initiated with one condition, the target overwritten / patched / deleted / created while the session is open, then completed: the condition is judged against the object at completion; 'hist': random histories whose conditions refer to generations learned earlier, including conditioned and unconditioned deletes / patches of never-stored names that are '/'-prefixes of stored names (with and without trailing slash) and read-only steps after which the dump must be unchanged. Non-trivial = the request carried at least one condition (enum/src/folder) resp. the history saw both a passing and a failing conditioned request; distinct by case index.", c04Tuples, c04Tuples*len(c04States)*len(c04Ops)*2, c04Tuples)
+	run.Rule = fmt.Sprintf("sub-space 'enum' (enumerated COMPLETELY in both tiers, exhaustive=true refers to it): %d condition tuples (ifGenerationMatch in {unset,=cur,!=cur,0,junk} x ifGenerationNotMatch, ifMetagenerationMatch, ifMetagenerationNotMatch in {unset,=cur,!=cur,junk}) x object state {absent, fresh (metageneration 1), patched (metageneration 3), deleted-and-recreated (!=cur = the deleted generation)} x operation {media, multipart, resumable (conditions at initiation), patch, delete, compose destination, patch whose body is a full object resource as an EARLIER metadata GET returned it (stale generation / metageneration / md5Hash / size for the patched and recreated states) with one user field changed - for a quarter of the tuples the resource of the neighbour object nb1, for another quarter renamed to an object that does not exist, so that name / id / links in the body differ from the URL -, patch whose body has valid members (user metadata, acl / owner / retention / customerEncryption) followed by a member of the wrong JSON type} x store {mem,file} = %d cases; sub-space 'src' (complete): compose with 1-3 sources, per-source ifGenerationMatch in {unset,=cur,!=cur} at every position x destination {absent,fresh} x store. The target is uploaded with acl entries, owner, retention and customerEncryption in its metadata and every plain PATCH of the grid that must fail also names those nested fields with other values. Each case = fresh bucket with two neighbour objects, set-up of the target state, baseline dump, the one request, dump; expected status from the truth table, after any non-2xx the dump must equal the baseline. 'folder' (complete): the same %d tuples x {delete, patch} x addressed name {'t', 't/'} x store in a bucket that holds 't/x' and 't/y/z' but never held an object 't' or 't/': the addressed object is absent, so only {} and {ifGenerationMatch=0} pass the conditions and then there is nothing to delete / patch (never a 2xx), an unparsable value is 400, and the dump afterwards - the objects below the prefix in particular - must equal the baseline. 'late' (complete): resumable sessions of at least three data chunks initiated with a condition {ifGenerationMatch=cur, ifGenerationNotMatch=cur, ifMetagenerationMatch=cur, ifMetagenerationNotMatch=cur, ifGenerationMatch=0, ifGenerationMatch=cur+ifMetagenerationMatch=cur on a live target; ifGenerationMatch=0, =another object's generation, ifMetagenerationMatch=1, ifMetagenerationNotMatch=2 on an absent one} x OTHER requests on the target {none, overwrite by another upload, patch, delete, delete+re-create, patch+overwrite; create, create+patch, create+delete} x the point of the session at which they are executed {after the initiation before the first chunk, after the first data chunk was acknowledged (308), after the second, after every byte was acknowledged and before the bodiless finalising request} x store, each of the other requests followed by a dump (a half-sent session shows nowhere); the upload is performed iff its conditions hold against the object as it is when the upload is COMMITTED (both directions are counted: true when opened / false at commit and false when opened / true at commit), else 412/304 and nothing changed; 'hist': random histories whose conditions refer to generations learned earlier, 45 percent of the resumable uploads sent in >= 2 chunk requests with 1-2 other requests on the same object (upload by another protocol, patch, delete, re-creation, a quarter of them conditioned themselves) between two of the session's chunks, including conditioned and unconditioned deletes / patches of never-stored names that are '/'-prefixes of stored names (with and without trailing slash) and read-only steps after which the dump must be unchanged. Non-trivial = the request carried at least one condition (enum/src/folder) resp. the history saw both a passing and a failing conditioned request; distinct by case index.", c04Tuples, c04Tuples*len(c04States)*len(c04Ops)*2, c04Tuples)
 	run.Assumptions = []string{
 		"truth table taken from the statement: junk => 400; absent object passes only {} and {ifGenerationMatch=0}; 412 for match-type, 304 for not-match-type failures, either when both kinds fail; on an absent object 412 or 304 (and 404 for patch/delete)",
 		"zero values for the three parameters other than ifGenerationMatch are outside the stated space and never sent",
 		"for an absent object '=cur' / '!=cur' are a neighbour's generation (+1) and metageneration 1 / 2",
 		"resumable: an unparsable condition may be rejected at initiation or at completion",
+		"resumable: the conditions of a session are judged against the object's generation / metageneration at the moment the upload is committed (the request that completes the content), not when the session was opened or when an earlier chunk arrived; a refused commit changes nothing",
 		"a resource without a size field is read as size 0",
 		"a PATCH whose body has a member of the wrong JSON type (e.g. contentType: 7) is either refused (any 4xx; with failing conditions also their status) and then nothing may have changed, or acknowledged as a patch of its valid members when the object is live and the conditions hold",
 		"nested resource fields (acl, owner, retention, customerEncryption) are only sent in upload metadata and in PATCH requests that must be refused; the oracle for them is 'whatever the server showed before a failed request it shows afterwards'",
+		"a request that gets no answer within the client watchdog (20 s for PATCH / DELETE / compose / rewrite, 60 s otherwise) is reported as 'request not answered within <d>: <request>', the case is abandoned and its server not used again; after 3 such reports the run stops",
 		"a PATCH body may be a full object resource from an earlier GET: its output-only fields (generation, metageneration, size, md5Hash, name, bucket, links, timestamps, kind) must not influence the verdict or the object",
 	}
 	j := common.NewJournal("C04")
@@ -38,29 +41,21 @@ func runC04(run *common.Run) {
 	var aborted atomic.Bool
 	if run.WantSub("enum") {
 		common.Parallel(W, W, func(w int) {
-			srvs := map[string]*drive.Server{}
-			defer func() {
-				for _, s := range srvs {
-					s.Close()
-				}
-			}()
+			srvs := srvPool{}
+			defer srvs.closeAll()
 			for idx := w; idx < total; idx += W {
 				if !run.Want("enum", idx) {
 					continue
 				}
-				if run.TooMany() {
+				if tooMany(run) {
 					aborted.Store(true)
 					return
 				}
 				store := drive.Stores[idx/(c04Tuples*len(c04States)*len(c04Ops))]
-				srv := srvs[store]
-				if srv == nil {
-					var err error
-					if srv, err = drive.Start(store, ""); err != nil {
-						run.Violation("enum", idx, "cannot start emulator: "+err.Error(), nil)
-						return
-					}
-					srvs[store] = srv
+				srv, err := srvs.get(store)
+				if err != nil {
+					run.Violation("enum", idx, "cannot start emulator: "+err.Error(), nil)
+					return
 				}
 				j.Begin(w, fmt.Sprintf("C04 enum case=%d seed=%d", idx, run.Seed))
 				c04Enum(run, srv, idx)
@@ -71,31 +66,23 @@ func runC04(run *common.Run) {
 	nsrc := (3 + 9 + 27) * 2 * 2
 	if run.WantSub("src") {
 		common.Parallel(W, W, func(w int) {
-			srvs := map[string]*drive.Server{}
-			defer func() {
-				for _, s := range srvs {
-					s.Close()
-				}
-			}()
+			srvs := srvPool{}
+			defer srvs.closeAll()
 			for idx := w; idx < nsrc; idx += W {
 				if !run.Want("src", idx) {
 					continue
 				}
-				if run.TooMany() {
+				if tooMany(run) {
 					aborted.Store(true)
 					return
 				}
-				store := drive.Stores[idx%2]
-				if srvs[store] == nil {
-					s, err := drive.Start(store, "")
-					if err != nil {
-						run.Violation("src", idx, "cannot start emulator: "+err.Error(), nil)
-						return
-					}
-					srvs[store] = s
+				srv, err := srvs.get(drive.Stores[idx%2])
+				if err != nil {
+					run.Violation("src", idx, "cannot start emulator: "+err.Error(), nil)
+					return
 				}
 				j.Begin(w, fmt.Sprintf("C04 src case=%d seed=%d", idx, run.Seed))
-				c04Src(run, srvs[store], idx)
+				c04Src(run, srv, idx)
 				j.End(w)
 			}
 		})
@@ -105,57 +92,54 @@ func runC04(run *common.Run) {
 	nfolder := c04Tuples * 2 * 2 * 2
 	if run.WantSub("folder") {
 		common.Parallel(W, W, func(w int) {
-			srvs := map[string]*drive.Server{}
-			defer func() {
-				for _, s := range srvs {
-					s.Close()
-				}
-			}()
+			srvs := srvPool{}
+			defer srvs.closeAll()
 			for idx := w; idx < nfolder; idx += W {
 				if !run.Want("folder", idx) {
 					continue
 				}
-				if run.TooMany() {
+				if tooMany(run) {
 					aborted.Store(true)
 					return
 				}
-				store := drive.Stores[idx%2]
-				if srvs[store] == nil {
-					s, err := drive.Start(store, "")
-					if err != nil {
-						run.Violation("folder", idx, "cannot start emulator: "+err.Error(), nil)
-						return
-					}
-					srvs[store] = s
+				srv, err := srvs.get(drive.Stores[idx%2])
+				if err != nil {
+					run.Violation("folder", idx, "cannot start emulator: "+err.Error(), nil)
+					return
 				}
 				j.Begin(w, fmt.Sprintf("C04 folder case=%d seed=%d", idx, run.Seed))
-				c04Folder(run, srvs[store], idx)
+				c04Folder(run, srv, idx)
 				j.End(w)
 			}
 		})
 	}
-	type lateCase struct{ store, state, cond, between string }
+	// 'late' (complete): when = at which point of the session the other requests run: "open" = after the initiation,
+	// before the first chunk; "mid" = after the first data chunk was acknowledged with 308; "mid2" = after the second;
+	// "last" = after every byte was acknowledged, before the bodiless finalising request ("bytes */N").
+	type lateCase struct{ store, state, cond, between, when string }
 	var late []lateCase
 	for _, store := range drive.Stores {
-		for _, c := range []string{"gm=cur", "gnm=cur", "mm=cur", "mnm=cur", "gm=0"} {
-			for _, bt := range []string{"none", "overwrite", "patch", "delete"} {
-				late = append(late, lateCase{store, "fresh", c, bt})
+		for _, when := range []string{"open", "mid", "mid2", "last"} {
+			for _, c := range []string{"gm=cur", "gnm=cur", "mm=cur", "mnm=cur", "gm=0", "gm=cur,mm=cur"} {
+				for _, bt := range []string{"none", "overwrite", "patch", "delete", "recreate", "patch+overwrite"} {
+					late = append(late, lateCase{store, "fresh", c, bt, when})
+				}
 			}
-		}
-		for _, c := range []string{"gm=0", "gm=other", "mm=1"} {
-			for _, bt := range []string{"none", "create"} {
-				late = append(late, lateCase{store, "absent", c, bt})
+			for _, c := range []string{"gm=0", "gm=other", "mm=1", "mnm=2"} {
+				for _, bt := range []string{"none", "create", "create+patch", "create+delete"} {
+					late = append(late, lateCase{store, "absent", c, bt, when})
+				}
 			}
 		}
 	}
 	if run.WantSub("late") {
 		common.Parallel(len(late), W, func(i int) {
-			if !run.Want("late", i) || run.TooMany() {
+			if !run.Want("late", i) || tooMany(run) {
 				return
 			}
 			lc := late[i]
 			j.Begin(300+i%64, fmt.Sprintf("C04 late case=%d seed=%d", i, run.Seed))
-			c04Late(run, i, lc.store, lc.state, lc.cond, lc.between)
+			c04Late(run, i, lc.store, lc.state, lc.cond, lc.between, lc.when)
 			j.End(300 + i%64)
 		})
 	}
@@ -166,7 +150,7 @@ func runC04(run *common.Run) {
 	nh := run.N(40, 2000)
 	if run.WantSub("hist") {
 		common.Parallel(nh, W, func(i int) {
-			if !run.Want("hist", i) || run.TooMany() {
+			if !run.Want("hist", i) || tooMany(run) {
 				return
 			}
 			j.Begin(100+i%64, fmt.Sprintf("C04 hist case=%d seed=%d", i, run.Seed))
@@ -340,7 +324,7 @@ func c04Enum(run *common.Run, srv *drive.Server, idx int) {
 
 // c04Late: a resumable session is initiated with a condition, the target changes while the session is open, then the
 // upload completes: the condition must be judged against the object as it is at completion.
-func c04Late(run *common.Run, idx int, store, state, cond, between string) {
+func c04Late(run *common.Run, idx int, store, state, cond, between, when string) {
 	r := run.Rand("C04.late", idx)
 	srv, err := drive.Start(store, "")
 	if err != nil {
@@ -351,7 +335,7 @@ func c04Late(run *common.Run, idx int, store, state, cond, between string) {
 	e := newExec(srv, true)
 	defer e.flush(run)
 	fail := func(what string) {
-		run.Violation("late", idx, what, map[string]any{"store": store, "state": state, "condition": cond, "between": between, "steps": e.steps})
+		run.Violation("late", idx, what, map[string]any{"store": store, "state": state, "condition": cond, "between": between, "when": when, "steps": e.steps})
 	}
 	if _, msg := c04Setup(e, "late", state, r); msg != "" {
 		fail("set-up: " + msg)
@@ -374,26 +358,77 @@ func c04Late(run *common.Run, idx int, store, state, cond, between string) {
 		c.GM = model.I(e.m.Get("late", "nb1").Gen)
 	case "mm=1":
 		c.MM = model.I(1)
+	case "mnm=2":
+		c.MNM = model.I(2)
+	case "gm=cur,mm=cur":
+		c.GM, c.MM = model.I(cur.Gen), model.I(cur.Metagen)
 	}
-	u := &uploadSpec{Proto: "resumable", Bucket: "late", Name: "t", Body: []byte("completed after the object changed"), CT: "image/png", Conds: c, KnownTotal: idx%2 == 0, ChunkMax: 20}
-	u.Between = func() string {
-		msg := ""
+	// 34 bytes in chunks of 9-12: at least three data chunks
+	u := &uploadSpec{Proto: "resumable", Bucket: "late", Name: "t", Body: []byte("completed after the object changed"), CT: "image/png", Conds: c, KnownTotal: idx%2 == 0, ChunkMax: 12,
+		Post: idx%3 == 1, UseLocation: idx%3 != 0}
+	verdictAtOpen := model.Eval(cur, c)
+	others := func() string {
+		do := func(what string) string {
+			msg := ""
+			switch what {
+			case "overwrite", "create":
+				msg = e.upload(&uploadSpec{Proto: common.Pick(r, []string{"media", "multipart"}), Bucket: "late", Name: "t", Body: []byte("written while the session was open"), CT: "text/plain", CTMode: "both", Boundary: "verif_bnd_late"}, r)
+			case "patch":
+				msg = e.patch("late", "t", map[string]any{"cacheControl": "no-cache"}, model.Conds{})
+			case "delete":
+				msg = e.del("late", "t", model.Conds{})
+			}
+			if msg == "" {
+				msg = e.verify()
+			}
+			return msg
+		}
+		var seq []string
 		switch between {
-		case "overwrite", "create":
-			msg = e.upload(&uploadSpec{Proto: "media", Bucket: "late", Name: "t", Body: []byte("written while the session was open"), CT: "text/plain"}, r)
-		case "patch":
-			msg = e.patch("late", "t", map[string]any{"cacheControl": "no-cache"}, model.Conds{})
-		case "delete":
-			msg = e.del("late", "t", model.Conds{})
+		case "none":
+		case "recreate":
+			seq = []string{"delete", "create"}
+		default:
+			seq = strings.Split(between, "+")
 		}
-		if msg == "" {
-			msg = e.verify()
+		for _, what := range seq {
+			if msg := do(what); msg != "" {
+				return msg
+			}
 		}
-		return msg
+		return ""
+	}
+	switch when {
+	case "open":
+		u.Between = others
+	case "mid":
+		u.Mid, u.MidAfter = others, 1
+	case "mid2":
+		u.Mid, u.MidAfter = others, 2
+	case "last":
+		// every byte acknowledged, then the other requests, then the bodiless finalising request
+		u.Mid, u.MidAfter, u.KnownTotal = others, 3, false
+		u.ChunkMax, u.FixedChunks = 12, true
+	}
+	if when != "open" {
+		u.FixedChunks = true
 	}
 	if msg := e.upload(u, r); msg != "" {
 		fail(msg)
 		return
+	}
+	if when != "open" && !u.MidRan {
+		fail(fmt.Sprintf("harness: the session completed before the requests planned for point %q were sent", when))
+		return
+	}
+	if verdictAtCommit := model.Eval(e.lateCur, c); between != "none" {
+		// (e.lateCur: the object as it was when the upload was decided, noted by upload())
+		switch {
+		case verdictAtOpen == model.Pass && verdictAtCommit != model.Pass:
+			run.Count("late_condition_true_when_opened_false_at_commit", 1)
+		case verdictAtOpen != model.Pass && verdictAtCommit == model.Pass:
+			run.Count("late_condition_false_when_opened_true_at_commit", 1)
+		}
 	}
 	if msg := e.verify(); msg != "" {
 		fail("after completion: " + msg)
@@ -401,8 +436,9 @@ func c04Late(run *common.Run, idx int, store, state, cond, between string) {
 	}
 	run.Case(common.Hash64("late", fmt.Sprint(idx)), between != "none")
 	run.Count("late_condition_cases", 1)
-	if idx == 1 {
-		run.Sample(map[string]any{"sub": "late", "store": store, "state": state, "condition": cond, "between": between, "steps": tailSteps(e.steps, 3)})
+	run.Count("late_condition_cases_"+when, 1)
+	if idx == 1 || (when == "mid" && between == "overwrite" && cond == "gm=cur" && store == "file") {
+		run.Sample(map[string]any{"sub": "late", "store": store, "state": state, "condition": cond, "between": between, "when": when, "steps": tailSteps(e.steps, 3)})
 	}
 }
 
@@ -558,7 +594,7 @@ func c04History(run *common.Run, idx int) {
 	fail := func(what string) {
 		run.Violation("hist", idx, what, map[string]any{"store": store, "steps": tailSteps(e.steps, 40), "steps_total": len(e.steps)})
 	}
-	o := &progOpts{Buckets: []string{"vb1"}, Names: []string{"t", "u", "dir/v", "w.txt"}, FileRules: store == "file", CondPct: 75, JunkPct: 6, MD5Pct: 10, NoGzip: true, ExtraPct: 50, GzipObjPct: 8,
+	o := &progOpts{Buckets: []string{"vb1"}, Names: []string{"t", "u", "dir/v", "w.txt"}, FileRules: store == "file", CondPct: 75, JunkPct: 6, MD5Pct: 10, NoGzip: true, ExtraPct: 50, GzipObjPct: 8, MidPct: 45,
 		W: map[string]int{"upload": 20, "overwrite": 25, "delete": 14, "delete_absent": 5, "patch": 14, "patch_full": 12, "patch_bad": 8, "patch_absent": 4, "compose": 10, "noop": 1, "reads": 2, "decoy": 6}}
 	if msg := e.createBucket("vb1"); msg != "" {
 		fail(msg)
